@@ -9,6 +9,10 @@ def run():
     d = os.path.join(ROOT, "translate")
     for f in sorted(os.listdir(d)):
         if f.endswith(".py") and not f.startswith("_"):
-            m = importlib.import_module("translate." + f[:-3])
-            out.append((f, m.run()))
+            try:
+                m = importlib.import_module("translate." + f[:-3])
+                if hasattr(m, "run"):
+                    out.append((f, m.run()))
+            except Exception as ex:  # a translator that cannot parse its source is reported by its own check
+                out.append((f, "FAILED: " + repr(ex)[:300]))
     return out
